@@ -557,3 +557,120 @@ def units(cfg=None, names=None):
             continue
         out.append(Unit(cls(), dict(cfg or {})))
     return out
+
+
+# =============================================================================== C01: invertibility of the primitives
+def observable_equal(W, sa, sb, tag):
+    """sa ~ sb on the observable state of property C01: nodes, edges, every *registered* node/edge feature
+    value, the segmentation, and the two lookups as bags (max ids, counters and list order are not state)."""
+    va, vb = sa.v, sb.v
+    node_feat, edge_feat = feat_dict_view(W, "node"), feat_dict_view(W, "edge")
+    out = [
+        (f"{tag}:same-nodes", forall([a_], va.N(a_) == vb.N(a_))),
+        (f"{tag}:same-edges", forall([a_, b_], va.E(a_, b_) == vb.E(a_, b_))),
+        (f"{tag}:same-registered-node-feature-values", forall([a_, k_], IMP(AND(va.N(a_), node_feat(k_)), va.A(a_, k_) == vb.A(a_, k_)))),
+        (f"{tag}:same-registered-edge-feature-values", forall([a_, b_, k_], IMP(AND(va.E(a_, b_), edge_feat(k_)), va.Ae(a_, b_, k_) == vb.Ae(a_, b_, k_)))),
+        (f"{tag}:same-track-lookup(bag)", forall([i_, n_], sa.T[1](i_, n_) == sb.T[1](i_, n_))),
+        (f"{tag}:same-lineage-lookup(bag)", forall([i_, n_], sa.L[1](i_, n_) == sb.L[1](i_, n_))),
+    ]
+    if va.Seg is not None:
+        from pyvc.tracksmodel import p_, t_
+        out.append((f"{tag}:same-segmentation", forall([t_, p_], va.Seg(t_, p_) == vb.Seg(t_, p_))))
+    return out
+
+
+class InvertPrim(Contract):
+    """{INV & ipre_A}  s1 = A(s0); s2 = A.inverse()(s1); s3 = A.inverse().inverse()(s2)  {s2 ~ s0 and s3 ~ s1}
+    with the real constructors and the real inverse() methods (only the relabel walk through its contract)."""
+
+    props = ("C01",)
+
+    def __init__(self, prim_cls):
+        self.prim = prim_cls()
+        self.qualname = self.prim.cls_qual + ".inverse"
+        self.name = self.prim.cls_qual.split(".")[-1]
+
+    def run(self, I, cfg):
+        ctx = I.ctx
+        W = C.world(I, has_seg=cfg.get("seg", False), inv=("forest", "trackids", "lineage", "b1", "b1l", "b2", "segfacts"))
+        W.with_lineage = True
+        prim = self.prim
+        prim.W = W
+        install_loopspecs(I, W)
+        ctx.contracts[C.WalkAssumed.qualname] = C.WalkAssumed(W)
+        cls = repo().get_class(prim.cls_qual)
+        node = cls.find("__init__")[1]
+        args, kw = prim.symbolic_args(I, W)
+        env = I.bind_args(node, [None] + args, kw, lambda d: I.eval_in_module(d, cls.module))
+        s0 = C.Snap(W, I)
+        for lbl, f, props in prim.requires(W, s0, env) + prim.invertible_here(I, W, s0, env):
+            ctx.assume(f)
+        I.under_verification = "<c01>"
+        q = self.name
+        try:
+            inst = I.instantiate(cls, args, kw)
+        except PyRaise as pr:
+            return ("raise", pr.exc)  # a refused primitive: nothing to invert (C11 covers it)
+        s1 = C.Snap(W, I)
+        try:
+            inv = I.call(I.getattr(inst, "inverse"), [], {})
+        except PyRaise as pr:
+            ctx.oblige(f"C01/{q}/inverse-does-not-raise", False, props=("C01",), note=str(exc_names(pr.exc)))
+            return ("raise", pr.exc)
+        s2 = C.Snap(W, I)
+        for lbl, f in observable_equal(W, s0, s2, "inverse-restores"):
+            ctx.oblige(f"C01/{q}/{lbl}", f, props=("C01",))
+        try:
+            I.call(I.getattr(inv, "inverse"), [], {})
+        except PyRaise as pr:
+            ctx.oblige(f"C01/{q}/inverse-of-inverse-does-not-raise", False, props=("C01",), note=str(exc_names(pr.exc)))
+            return ("raise", pr.exc)
+        s3 = C.Snap(W, I)
+        for lbl, f in observable_equal(W, s1, s3, "inverse-of-inverse-reapplies"):
+            ctx.oblige(f"C01/{q}/{lbl}", f, props=("C01",))
+        return ("return", None)
+
+
+def _no_extra(self, I, W, s0, env):
+    return []
+
+
+Prim.invertible_here = _no_extra
+
+
+def _addnode_inv_here(self, I, W, s0, env):
+    node = to_z3(env["node"], Int)
+    out = [("node-is-new", z3.Not(s0.v.N(node)), ("C01",))]
+    return out
+
+
+def _addedge_inv_here(self, I, W, s0, env):
+    u, w = _edge(None, env)
+    return [("edge-is-new", z3.Not(s0.v.E(u, w)), ("C01",))]
+
+
+def _utid_inv_here(self, I, W, s0, env):
+    start = to_z3(env["start_node"], Int)
+    new = to_z3(env["tracklet_id"], Val)
+    K, v0 = W.K, s0.v
+    bel = C.below_of(I, W, view=v0)
+    return [
+        ("new-track-id-not-found-downstream", forall([a_], IMP(AND(bel(start, a_), T.tid(v0, K, a_) == new), new == T.tid(v0, K, start))), ("C01",)),
+        ("start-in-graph", v0.N(start), ("C01",)),
+    ]
+
+
+AddNodeC.invertible_here = _addnode_inv_here
+AddEdgeC.invertible_here = _addedge_inv_here
+UpdateTrackIDsC.invertible_here = _utid_inv_here
+
+
+def invert_units(cfg=None, names=None):
+    from pyvc.verify import Unit
+    out = []
+    for cls in PRIMS:
+        if names and cls.__name__ not in names:
+            continue
+        c = InvertPrim(cls)
+        out.append(Unit(c, dict(cfg or {}), name=f"C01:{c.name}" + ("[seg]" if (cfg or {}).get("seg") else "")))
+    return out
